@@ -418,7 +418,36 @@ func c04LargeWithinLimits(c *fw.Ctx, idx int) {
 	L1, L2, L3 := cfg.lim[1], cfg.lim[2], cfg.lim[3]
 	var g *model.G
 	kindName := ""
-	switch r.Intn(5) {
+	switch r.Intn(6) {
+	case 5: // very many polygons of several rings each (as a multipolygon, or as members of a collection)
+		g = &model.G{Kind: model.MultiPolygon, Layout: layout}
+		np := r.Range(200, 900)
+		if np > L3 {
+			np = L3
+		}
+		nr := r.Range(2, 12)
+		if nr > L2 {
+			nr = L2
+		}
+		if r.Chance(1, 3) {
+			nr = []int{7, 8, 9, 15, 16, 17}[r.Intn(6)]
+		}
+		for i := 0; i < np; i++ {
+			var pg [][][]float64
+			for k := 0; k < nr; k++ {
+				pg = append(pg, pts(4))
+			}
+			g.C3 = append(g.C3, pg)
+		}
+		kindName = "multipolygon-many-polygons-of-several-rings"
+		if r.Chance(1, 3) {
+			gc := &model.G{Kind: model.Collection}
+			for _, pg := range g.C3 {
+				gc.Members = append(gc.Members, &model.G{Kind: model.Polygon, Layout: layout, C2: pg})
+			}
+			g = gc
+			kindName = "collection-of-many-polygons-of-several-rings"
+		}
 	case 0: // polygon: big first ring, many small rings
 		g = &model.G{Kind: model.Polygon, Layout: layout}
 		g.C2 = append(g.C2, pts(r.Range(L1/4, L1)))
